@@ -236,6 +236,16 @@ fn handle(req: &Value) -> Value {
             json!({"ok": ok, "state": {"pause_flags": ps.pause_flags, "daily_pause_count": ps.daily_pause_count, "consecutive_pause_count": ps.consecutive_pause_count,
                    "pause_start_timestamp": ps.pause_start_timestamp, "last_daily_reset_timestamp": ps.last_daily_reset_timestamp}})
         }
+        "update_withdrawn_equity" => {
+            use marginfi::state::marginfi_group::MarginfiGroupImpl;
+            let mut g = marginfi_type_crate::types::MarginfiGroup::zeroed();
+            g.deleverage_withdraw_window_cache.daily_limit = i128v(&req["daily_limit"]) as u32;
+            g.deleverage_withdraw_window_cache.withdrawn_today = i128v(&req["withdrawn_today"]) as u32;
+            g.deleverage_withdraw_window_cache.last_daily_reset_timestamp = i128v(&req["last_reset"]) as i64;
+            let r = g.update_withdrawn_equity(fx(&req["value"]), i128v(&req["now"]) as i64);
+            let w = &g.deleverage_withdraw_window_cache;
+            json!({"ok": r.is_ok(), "daily_limit": w.daily_limit, "withdrawn_today": w.withdrawn_today, "last_reset": w.last_daily_reset_timestamp})
+        }
         "remaining_deposit_capacity" => {
             let bank = mk_bank(req.get("bank"));
             match bank.get_remaining_deposit_capacity() {
